@@ -198,14 +198,14 @@ class ActionDispatcher:
             log.info(f"Executing registered action: {action_name}")
             fn = self._registered_actions.get(action_name, None)
 
-            # Actions that are registered as classes are initialized lazy, when
-            # they are first used.
-            if inspect.isclass(fn):
-                fn = fn()
-                self._registered_actions[action_name] = fn
-
             if fn is not None:
                 try:
+                    # Actions that are registered as classes are initialized lazy, when
+                    # they are first used. A failing constructor is handled like a failing action.
+                    if inspect.isclass(fn):
+                        fn = fn()
+                        self._registered_actions[action_name] = fn
+
                     # We support both functions and classes as actions
                     if inspect.isfunction(fn) or inspect.ismethod(fn):
                         # We support both sync and async actions.
